@@ -38,8 +38,8 @@ structure St where
   live : List Trk := []
   wasted : List Trk := []       -- the store of collected expired tracks
   nextId : Nat := 0
-  awPeriod : Nat := 100
-  awCounter : Nat := 100
+  awPeriod : Nat := Gen.DEFAULT_AUTO_WASTE_PERIODICITY
+  awCounter : Nat := Gen.DEFAULT_AUTO_WASTE_PERIODICITY
   handed : List Nat := []       -- ghost: ids handed out by `wasted()`
   cleared : List Nat := []      -- ghost: ids dropped by `clear_wasted()`
 deriving Repr
